@@ -381,6 +381,9 @@ impl InnerLocustDB {
                 .collect::<Vec<_>>();
             for table in &tables {
                 table.freeze_buffer();
+                // (sync point inside the ingestion lock: ingestion must not be able to run here)
+                #[cfg(locustdb_verif)]
+                crate::verif::gate("wal_flush:buffer_frozen", table.name());
             }
             *wal_size = 0;
             wal_condvar.notify_all();
